@@ -1,5 +1,7 @@
 import DimodProofs.FeasCqm
 import DimodProofs.FeasOptions
+import DimodProofs.FeasMore
+import DimodProofs.FeasGather
 
 /-! # C08 — CQM feasibility and violation reports agree with the constraint definition
 
@@ -283,5 +285,324 @@ example : iterViolations true true demo 2 = [] ∧ reportDef true true demo 2 = 
     ∧ iterViolations false true demo 2 = [(.str "soft", 0), (.str "hard", 0), (.str "const", 0)]
     ∧ iterViolations true false demo 1 = [(.str "hard", 1)]
     ∧ violationsDict true true demo 1 = [(.str "hard", 1)] := by decide +kernel
+
+/-! ## round 7: cross-consistency of every report path, senses, soft penalties, discrete constraints, tolerances, exact solver
+
+Everything below is stated against ONE definition, `Feas.violation c r` (activity `lhs r - rhs`; `|activity|`, `activity`,
+`-activity` by sense), and the one satisfaction test `violation ≤ atol + rtol * |rhs|`. -/
+
+/-- **All feasibility reports are the same statement.**  For a row `r < n`, with distinct constraint labels (as
+    `constraint_labels` guarantees), the following are equivalent to *every hard constraint's violation is at most
+    `atol + rtol·|rhs|`*: `check_feasible` (the generator over `iter_constraint_data`, soft constraints skipped), the
+    `is_feasible` entry of `from_samples_cqm` (whatever the uninitialised `is_satisfied` memory held), and the definition's
+    `feasible`.  And `iter_violations(skip_satisfied=True)` (with or without `clip`) lists no hard constraint exactly when
+    `check_feasible` holds with both tolerances 0; for non-negative tolerances "nothing hard listed" implies `check_feasible`. -/
+theorem feasibility_cross_consistent (n : Nat) (atol rtol : Rat) (garbage : Nat → Nat → Bool) (obj : Nat → Rat)
+    (cs : List CEval) (hnd : (cs.map (·.label)).Nodup) (r : Nat) (hr : r < n) :
+    (checkFeasible atol rtol cs r = true ↔ ∀ c ∈ cs, c.weight = none → violation c r ≤ atol + rtol * |c.rhs|)
+    ∧ ((fromSamplesCqm n atol rtol garbage obj cs).isFeasible r = true ↔ ∀ c ∈ cs, c.weight = none → violation c r ≤ atol + rtol * |c.rhs|)
+    ∧ (feasible atol rtol cs r = true ↔ ∀ c ∈ cs, c.weight = none → violation c r ≤ atol + rtol * |c.rhs|)
+    ∧ (∀ clip, hardListed clip cs r = [] ↔ checkFeasible 0 0 cs r = true)
+    ∧ (∀ clip, 0 ≤ atol → 0 ≤ rtol → hardListed clip cs r = [] → checkFeasible atol rtol cs r = true) := by
+  have hf := feasible_iff atol rtol cs r
+  refine ⟨by rw [checkFeasible_eq]; exact hf, by rw [vec_isFeasible n atol rtol garbage obj cs hnd r hr]; exact hf, hf, fun clip => ?_,
+    fun clip ha hrt h => ?_⟩
+  · rw [hardListed_nil_iff clip cs hnd r, checkFeasible_eq, feasible_iff]
+    simp
+  · rw [checkFeasible_eq, feasible_iff]
+    intro c hc hw
+    have h0 := (hardListed_nil_iff clip cs hnd r).mp h c hc hw
+    have : 0 ≤ atol + rtol * |c.rhs| := add_nonneg ha (mul_nonneg hrt (abs_nonneg _))
+    linarith
+
+/-- **Per-constraint reports are the same statement**: the `is_satisfied` entry of `from_samples_cqm`, the test
+    `violation <= atol + rtol*abs(rhs_energy)` on the datum `iter_constraint_data` yields, and the same test on the value
+    `violations(sample)` stores under the constraint's label all equal the definition's `satisfied`. -/
+theorem satisfaction_cross_consistent (n : Nat) (atol rtol : Rat) (garbage : Nat → Nat → Bool) (obj : Nat → Rat)
+    (cs : List CEval) (hnd : (cs.map (·.label)).Nodup) (r : Nat) (c : CEval) (hc : c ∈ cs) :
+    violationsGet (violationsDict false false cs r) c.label = some (violation c r)
+    ∧ ((datum c r).violation ≤ atol + rtol * absR (datum c r).rhsEnergy ↔ satisfied atol rtol c r = true)
+    ∧ (∀ j : Nat, cs[j]? = some c →
+        ((fromSamplesCqm n atol rtol garbage obj cs).isSatisfied[j]?).map (fun col : Nat → Bool => col r) = some (satisfied atol rtol c r)) := by
+  refine ⟨?_, ?_, fun j hj => ?_⟩
+  · rw [(options_eq_def false false none cs r).2.2 hnd]
+    unfold violationsGet reportDef
+    simp only [Bool.not_false, Bool.true_or, List.filter_true, Bool.false_eq_true, if_false]
+    have : List.find? (fun p : Label × Rat => decide (p.1 = c.label)) (cs.map fun c => (c.label, violation c r))
+        = some (c.label, violation c r) := by
+      rw [List.find?_map]
+      have hfind : cs.find? ((fun p : Label × Rat => decide (p.1 = c.label)) ∘ fun c => (c.label, violation c r)) = some c := by
+        induction cs with
+        | nil => cases hc
+        | cons a t ih =>
+          rw [List.find?_cons]
+          by_cases hac : a.label = c.label
+          · have : a = c := eq_of_nodup_map (·.label) (a :: t) hnd a (List.mem_cons_self ..) c hc hac
+            subst this; simp
+          · simp only [Function.comp, hac, decide_false]
+            rcases List.mem_cons.mp hc with h | h
+            · exact absurd (h ▸ rfl) hac
+            · exact ih (List.nodup_cons.mp (by simpa using hnd)).2 h
+      rw [hfind]; rfl
+    rw [this]; rfl
+  · rw [datum_violation]
+    show _ ↔ decide (violation c r ≤ tol atol rtol c) = true
+    unfold tol
+    simp [datum]
+  · rw [vec_isSatisfied, List.getElem?_map, hj]
+    rfl
+
+/-- **Senses.**  Satisfaction spelled out for each `Sense`, with `t = atol + rtol·|rhs|`: `==` is `|lhs − rhs| ≤ t`, i.e.
+    `rhs − t ≤ lhs ≤ rhs + t`; `<=` is `lhs ≤ rhs + t`; `>=` is `rhs − t ≤ lhs`.  The violation of an equality is never negative,
+    and an equality is satisfied exactly when both inequalities with the same right-hand side are. -/
+theorem satisfied_by_sense (atol rtol : Rat) (c : CEval) (r : Nat) :
+    (c.sense = .eq → (satisfied atol rtol c r = true ↔ |c.lhs r - c.rhs| ≤ atol + rtol * |c.rhs|)
+        ∧ (satisfied atol rtol c r = true ↔ c.rhs - (atol + rtol * |c.rhs|) ≤ c.lhs r ∧ c.lhs r ≤ c.rhs + (atol + rtol * |c.rhs|))
+        ∧ 0 ≤ violation c r
+        ∧ (satisfied atol rtol c r = (satisfied atol rtol { c with sense := .le } r && satisfied atol rtol { c with sense := .ge } r)))
+    ∧ (c.sense = .le → (satisfied atol rtol c r = true ↔ c.lhs r ≤ c.rhs + (atol + rtol * |c.rhs|)))
+    ∧ (c.sense = .ge → (satisfied atol rtol c r = true ↔ c.rhs - (atol + rtol * |c.rhs|) ≤ c.lhs r)) := by
+  have hle : ∀ c : CEval, c.sense = .le → (satisfied atol rtol c r = true ↔ c.lhs r ≤ c.rhs + (atol + rtol * |c.rhs|)) := by
+    intro c h
+    rw [satisfied_iff]; unfold violation activity; rw [h]
+    constructor <;> intro h <;> linarith
+  have hge : ∀ c : CEval, c.sense = .ge → (satisfied atol rtol c r = true ↔ c.rhs - (atol + rtol * |c.rhs|) ≤ c.lhs r) := by
+    intro c h
+    rw [satisfied_iff]; unfold violation activity; rw [h]
+    constructor <;> intro h <;> linarith
+  have heq : c.sense = .eq → (satisfied atol rtol c r = true ↔ |c.lhs r - c.rhs| ≤ atol + rtol * |c.rhs|) := by
+    intro h
+    rw [satisfied_iff]; unfold violation activity; rw [h]
+    simp only [absR_eq_abs]
+  have heq2 : c.sense = .eq → (satisfied atol rtol c r = true ↔
+      c.rhs - (atol + rtol * |c.rhs|) ≤ c.lhs r ∧ c.lhs r ≤ c.rhs + (atol + rtol * |c.rhs|)) := by
+    intro h
+    rw [heq h, abs_le]
+    constructor <;> rintro ⟨a, b⟩ <;> constructor <;> linarith
+  refine ⟨fun h => ⟨heq h, heq2 h, ?_, ?_⟩, hle c, hge c⟩
+  · unfold violation; rw [h]; simp only [absR_eq_abs]; exact abs_nonneg _
+  · rw [Bool.eq_iff_iff, Bool.and_eq_true, heq2 h, hle { c with sense := .le } rfl, hge { c with sense := .ge } rfl]
+    exact And.comm
+
+/-- **Soft constraints and their penalties.**  The reported energy is the objective plus, over the soft constraints that are
+    NOT satisfied (at the given tolerances), `weight × violation` (linear penalty) or `weight × violation²` (quadratic); hard
+    constraints never contribute; when every soft constraint is satisfied it is the objective; with non-negative tolerances and
+    weights it is never below the objective.  `from_samples_cqm` reports exactly this for every row, whatever the
+    uninitialised memory held. -/
+theorem soft_penalties (n : Nat) (atol rtol : Rat) (garbage : Nat → Nat → Bool) (obj : Nat → Rat) (cs : List CEval) (r : Nat) (hr : r < n) :
+    (fromSamplesCqm n atol rtol garbage obj cs).energies r = energy atol rtol obj cs r
+    ∧ energy atol rtol obj cs r = obj r + ((cs.filter (fun c => c.weight.isSome && !satisfied atol rtol c r)).map
+          (fun c => c.weight.getD 0 * (if c.quad then violation c r * violation c r else violation c r))).sum
+    ∧ energy atol rtol obj cs r = energy atol rtol obj (cs.filter (·.weight.isSome)) r
+    ∧ ((∀ c ∈ cs, c.weight.isSome = true → satisfied atol rtol c r = true) → energy atol rtol obj cs r = obj r)
+    ∧ (0 ≤ atol → 0 ≤ rtol → (∀ c ∈ cs, ∀ w, c.weight = some w → 0 ≤ w) → obj r ≤ energy atol rtol obj cs r) := by
+  refine ⟨vec_energy n atol rtol garbage obj cs r hr, by unfold energy; rw [sum_penaltyTerm], by unfold energy; rw [sum_penalty_filter_soft],
+    fun h => ?_, fun ha hrt hw => ?_⟩
+  · unfold energy
+    rw [sum_penaltyTerm]
+    have : cs.filter (fun c => c.weight.isSome && !satisfied atol rtol c r) = [] := by
+      rw [List.filter_eq_nil_iff]
+      intro c hc
+      cases hw : c.weight.isSome with
+      | false => simp
+      | true => simp [h c hc hw]
+    rw [this]; simp
+  · unfold energy
+    have : 0 ≤ (cs.map (penaltyTerm atol rtol · r)).sum := by
+      apply sum_nonneg_of_forall
+      intro x hx
+      obtain ⟨c, hc, rfl⟩ := List.mem_map.mp hx
+      exact penaltyTerm_nonneg ha hrt c r (hw c hc)
+    linarith
+
+/-- **Discrete (one-hot) constraints.**  A discrete constraint is the equality `Σ xᵢ == 1` over binary variables.  On a row
+    whose values `xs` of those variables are 0/1 — with any tolerance `0 ≤ t < 1` (the defaults give `t ≈ 1.01e-6`) — it is
+    reported satisfied exactly when exactly one of them is 1; in particular on every row `ExactCQMSolver` enumerates for the
+    discrete variables (a one-hot vector) its violation is exactly 0 and it is satisfied at every non-negative tolerance. -/
+theorem discrete_is_onehot (atol rtol : Rat) (c : CEval) (r : Nat) (xs : List Rat) (hx : ∀ x ∈ xs, x = 0 ∨ x = 1)
+    (hs : c.sense = .eq) (hrhs : c.rhs = 1) (hl : c.lhs r = xs.sum) :
+    (0 ≤ atol + rtol → atol + rtol < 1 → (satisfied atol rtol c r = true ↔ xs.count 1 = 1))
+    ∧ (xs.count 1 = 1 → violation c r = 0 ∧ (0 ≤ atol → 0 ≤ rtol → satisfied atol rtol c r = true)) := by
+  have hsum := sum_zero_one xs hx
+  have hv : violation c r = |(xs.count 1 : Rat) - 1| := by
+    unfold violation activity; rw [hs, hl, hrhs, hsum]; simp only [absR_eq_abs]
+  have ht : atol + rtol * |c.rhs| = atol + rtol := by rw [hrhs]; simp
+  refine ⟨fun h0 h1 => ?_, fun h => ?_⟩
+  · rw [satisfied_iff, hv, ht]
+    exact nat_near_one h0 h1
+  · have : violation c r = 0 := by rw [hv, h]; simp
+    refine ⟨this, fun ha hr' => ?_⟩
+    rw [satisfied_iff, this]
+    exact add_nonneg ha (mul_nonneg hr' (abs_nonneg _))
+
+/-- **Where float rounding is excluded.**  The theorems of this file are over `Rat`; the code computes in binary64.  Let `fl`
+    be the rounding applied to each arithmetic result of the test (`fl(violation) ≤ fl(atol + fl(rtol·|rhs|))`):
+    * if the three results are representable (`fl` fixes them — the harness's dyadic inputs) the float verdict IS the rational
+      one;
+    * if every rounding is off by at most `δ` and the violation is further than `3δ` from the tolerance, the verdicts agree;
+      so the float and the rational verdict can differ only for violations within `3δ` of `atol + rtol·|rhs|`;
+    * if `fl` is monotone (IEEE rounding is) and the product `rtol·|rhs|` is exact, a constraint satisfied over `Rat` is
+      never reported violated.
+    The rounding inside the left-hand-side energy (`lhs r`) is outside these statements: `violation` is the violation of the
+    energy value the expression returned. -/
+theorem tolerance_float_excluded (fl : Rat → Rat) (atol rtol : Rat) (c : CEval) (r : Nat) :
+    (fl (rtol * absR c.rhs) = rtol * absR c.rhs → fl (atol + rtol * absR c.rhs) = atol + rtol * absR c.rhs →
+        fl (violation c r) = violation c r → satisfiedFl fl atol rtol c r = satisfied atol rtol c r)
+    ∧ (∀ δ, (∀ x, |fl x - x| ≤ δ) → 3 * δ < |violation c r - (atol + rtol * |c.rhs|)| →
+        satisfiedFl fl atol rtol c r = satisfied atol rtol c r)
+    ∧ ((∀ x y, x ≤ y → fl x ≤ fl y) → fl (rtol * absR c.rhs) = rtol * absR c.rhs →
+        satisfied atol rtol c r = true → satisfiedFl fl atol rtol c r = true) := by
+  refine ⟨fun h1 h2 h3 => ?_, fun δ hδ hgap => ?_, fun hmono h1 hs => ?_⟩
+  · unfold satisfiedFl satisfied tol
+    rw [h1, h2, h3]
+  · unfold satisfiedFl satisfied tol
+    rw [absR_eq_abs]
+    have e1 := abs_le.mp (hδ (violation c r))
+    have e2 := abs_le.mp (hδ (rtol * |c.rhs|))
+    have e3 := abs_le.mp (hδ (atol + fl (rtol * |c.rhs|)))
+    rw [decide_eq_decide]
+    rcases lt_or_ge (violation c r) (atol + rtol * |c.rhs|) with hlt | hge
+    · rw [abs_of_neg (by linarith)] at hgap
+      constructor <;> intro _ <;> linarith [e1.1, e1.2, e2.1, e2.2, e3.1, e3.2]
+    · rw [abs_of_nonneg (by linarith)] at hgap
+      constructor <;> intro _ <;> linarith [e1.1, e1.2, e2.1, e2.2, e3.1, e3.2]
+  · unfold satisfiedFl
+    unfold satisfied tol at hs
+    rw [h1]
+    exact decide_eq_true (hmono _ _ (of_decide_eq_true hs))
+
+/-- **`from_samples_cqm` with its first branch.**  `len(samples_like) == 0` (the length of the ARGUMENT: number of rows for an
+    array or list, 2 for a `(samples, labels)` pair, number of variables for one dict) returns an empty sample set — one column
+    of `is_satisfied` per constraint, nothing evaluated, no `constraint_labels` in `info`; any other argument goes through the
+    loop, which is the definition (`vectorised_eq_def`).  The number of `is_satisfied` columns is the number of constraints in
+    both branches. -/
+theorem from_samples_cqm_branches (lenArg n : Nat) (atol rtol : Rat) (garbage : Nat → Nat → Bool) (obj : Nat → Rat) (cs : List CEval) :
+    (fromSamplesCqmTop lenArg n atol rtol garbage obj cs).1.isSatisfied.length = cs.length
+    ∧ (lenArg ≠ 0 → fromSamplesCqmTop lenArg n atol rtol garbage obj cs = (fromSamplesCqm n atol rtol garbage obj cs, true))
+    ∧ (lenArg = 0 → fromSamplesCqmTop lenArg n atol rtol garbage obj cs = (emptyResult obj cs, false)) := by
+  refine ⟨?_, fun h => by unfold fromSamplesCqmTop; rw [if_neg h], fun h => by unfold fromSamplesCqmTop; rw [if_pos h]⟩
+  unfold fromSamplesCqmTop
+  split
+  · simp [emptyResult]
+  · simp [vec_isSatisfied]
+
+/-- **`ExactCQMSolver.sample_cqm`** on the CQM model after any history: it raises iff a variable outside the discrete
+    constraints is REAL (only when there is a variable at all); a model without variables gives the empty sample set
+    *without* feasibility fields; otherwise, for every enumerated case `r` (rows in the order `_all_cases_cqm` produces them,
+    columns `d_vars + var_list`), `is_satisfied`, `is_feasible` and `energy` are the definition applied to the values of the
+    polynomials at that case, and `constraint_labels` is present. -/
+theorem exact_solver_agrees (ops : List Cqm.Op) (hops : ∀ op ∈ ops, CqmP.OpOK op) (atol rtol : Rat) (garbage : Nat → Nat → Bool) :
+    let m := ({} : Cqm).run ops
+    (exactSolve m atol rtol garbage = .noFields ↔ m.vt.length = 0)
+    ∧ (exactSolve m atol rtol garbage = .raises ↔ m.vt.length ≠ 0 ∧ exactCases m = none)
+    ∧ (∀ cases res lbl, exactSolve m atol rtol garbage = .result cases res lbl →
+        exactCases m = some cases ∧ lbl = true ∧
+        let rows := rowsOfCases (exactColumns m) cases
+        res.isSatisfied = (defCons m rows).map (fun c r => satisfied atol rtol c r)
+        ∧ ∀ r, r < cases.length →
+            res.isFeasible r = feasible atol rtol (defCons m rows) r
+            ∧ res.energies r = energy atol rtol (fun r => polyValue m.obj (rows r)) (defCons m rows) r) := by
+  intro m
+  refine ⟨?_, ?_, ?_⟩
+  · unfold exactSolve
+    split
+    · simp [*]
+    · split <;> simp [*]
+  · unfold exactSolve
+    split
+    · simp [*]
+    · split <;> simp [*]
+  · intro cases res lbl h
+    unfold exactSolve at h
+    split at h
+    · cases h
+    · split at h
+      · cases h
+      · rename_i cs' hc
+        simp only [ExactOut.result.injEq] at h
+        obtain ⟨rfl, rfl, rfl⟩ := h
+        refine ⟨hc, by simp [fromSamplesCqmTop], ?_⟩
+        intro rows
+        have hx := fun r hr => exact_cqm_agrees ops hops cs'.length atol rtol garbage rows r hr
+        have htop : (fromSamplesCqmTop 2 cs'.length atol rtol garbage (evalObj m rows) (evalCons m rows)).1
+            = fromSamplesCqm cs'.length atol rtol garbage (evalObj m rows) (evalCons m rows) := by
+          simp [fromSamplesCqmTop]
+        rw [htop]
+        refine ⟨?_, fun r hr => ⟨(hx r hr).2.1, (hx r hr).2.2.1⟩⟩
+        have hwf : CqmP.CqmWF m := CqmP.run_wf ops CqmP.cqmWF_empty hops
+        rw [evalCons_eq_def hwf, vec_isSatisfied]
+
+/-- **The source's own branch tables are the definition** (tie to the code: `Generated/FeasTable.lean` is rewritten from the
+    source on every run by `harness/translators/c08_feas_table.py`).  The `if sense is Sense.X: violation = …` chains of
+    `iter_constraint_data` and of `from_samples_cqm` both compute the definition's `violation` for every sense (no sense falls
+    through to `RuntimeError`); `check_feasible`, `from_samples_cqm` and `ExactCQMSolver.sample_cqm` have the same default
+    tolerances, the binary64 values of `1e-6` and `1e-8` (each within 2⁻⁵² relative of the decimal); both satisfaction tests are
+    `violation <= atol + rtol*abs(rhs)`; `skip_satisfied` keeps `violation > 0`; the penalty names are `linear` (violation) and
+    `quadratic` (violation²).  Any change of one of these in the source changes the generated file and breaks this theorem. -/
+theorem generated_tables_are_the_definition (c : CEval) (r : Nat) :
+    violationByTable Generated.FeasTable.perSample c r = some (violation c r)
+    ∧ violationByTable Generated.FeasTable.vectorised c r = some (violation c r)
+    ∧ (∀ p ∈ Generated.FeasTable.defaults, p.2 = (defaultRtol, defaultAtol))
+    ∧ Generated.FeasTable.defaults.map (·.1) = ["check_feasible", "from_samples_cqm", "ExactCQMSolver.sample_cqm"]
+    ∧ |defaultRtol - 1 / 1000000| ≤ 1 / 1000000 / 2 ^ 52 ∧ |defaultAtol - 1 / 100000000| ≤ 1 / 100000000 / 2 ^ 52
+    ∧ Generated.FeasTable.satTest = [("check_feasible", "LtE", "atol+rtol*abs(rhs)"), ("from_samples_cqm", "LtE", "atol+rtol*abs(rhs)")]
+    ∧ Generated.FeasTable.skipOp = "Gt"
+    ∧ Generated.FeasTable.penalties = [("linear", 1), ("quadratic", 2)] := by
+  refine ⟨?_, ?_, by decide +kernel, by decide +kernel, ?_, ?_, by decide +kernel, by decide +kernel, by decide +kernel⟩
+  · unfold violationByTable violation
+    cases h : c.sense <;> simp [Generated.FeasTable.perSample, senseName, evalForm]
+  · unfold violationByTable violation
+    cases h : c.sense <;> simp [Generated.FeasTable.vectorised, senseName, evalForm]
+  · unfold defaultRtol; rw [abs_le]; constructor <;> norm_num
+  · unfold defaultAtol; rw [abs_le]; constructor <;> norm_num
+
+/-- **The single-sample guard.**  Every per-sample report starts with `if sample.shape[0] != 1: raise ValueError`: with any
+    number of rows other than one `iter_constraint_data`, `iter_violations` (hence `violations`) and `check_feasible` raise
+    before yielding anything; with exactly one row they are the reports of the theorems above. -/
+theorem single_sample_guard (nrows : Nat) (skip clip : Bool) (labels : Option (List Label)) (atol rtol : Rat) (cs : List CEval) (r : Nat) :
+    (nrows ≠ 1 → iterConstraintDataG nrows labels cs r = ([], true) ∧ iterViolationsG nrows skip clip labels cs r = ([], true)
+        ∧ checkFeasibleG nrows atol rtol cs r = none)
+    ∧ (nrows = 1 → iterConstraintDataG nrows labels cs r = iterConstraintDataL labels cs r
+        ∧ iterViolationsG nrows skip clip labels cs r = (reportDef skip clip (selectCons labels cs).1 r, (selectCons labels cs).2)
+        ∧ checkFeasibleG nrows atol rtol cs r = some (feasible atol rtol cs r)) := by
+  refine ⟨fun h => ?_, fun h => ?_⟩
+  · simp [iterConstraintDataG, iterViolationsG, checkFeasibleG, h]
+  · subst h
+    refine ⟨by simp [iterConstraintDataG], ?_, by simp [checkFeasibleG, checkFeasible_eq]⟩
+    simp only [iterViolationsG, ne_eq, not_true_eq_false, if_false]
+    exact (options_eq_def skip clip labels cs r).1
+
+/-- **Samples wider than the model.**  `_cyExpression._energies` gathers, for every row, the expression's variables BY LABEL
+    from the labelled sample array (`reindex[i] = labels.index(…)`, `samples[:, reindex]`) and hands that sub-sample, in the
+    expression's private order, to `abc::energy`.  So the energy of a row is the value of the expression at the assignment
+    "label ↦ the row's entry in that label's column" (`sampleVal`; the column of a label is found wherever it stands), and two
+    labelled samples that give the same value to every variable of the expression — with superfluous columns before, between
+    or after, in any column order — give the same energy; every report of this file is a function of those energies. -/
+theorem samples_wider_than_model (modelLabels s1 s2 : List Label) (r1 r2 : List Rat) (e : Expr)
+    (hlen : e.qb.lin.length = e.vars.length) :
+    exprEnergyOfSample modelLabels s1 r1 e = exprEnergy e (fun g => sampleVal s1 r1 (modelLabels.getD g (.int 0)))
+    ∧ ((∀ g ∈ e.vars, sampleVal s1 r1 (modelLabels.getD g (.int 0)) = sampleVal s2 r2 (modelLabels.getD g (.int 0))) →
+        exprEnergyOfSample modelLabels s1 r1 e = exprEnergyOfSample modelLabels s2 r2 e)
+    ∧ (s1.Nodup → ∀ j l, s1[j]? = some l → sampleVal s1 r1 l = r1.getD j 0) := by
+  refine ⟨exprEnergyOfSample_eq modelLabels s1 r1 e hlen, fun h => ?_, fun hnd j l hj => sampleVal_get hnd r1 hj⟩
+  unfold exprEnergyOfSample
+  have : gatherRow modelLabels s1 r1 e = gatherRow modelLabels s2 r2 e := by
+    unfold gatherRow
+    exact List.map_congr_left h
+  rw [this]
+
+/-- objective `x + 2·i` over model labels [x, i]: the sample `[9, x=1, 7, i=3]` with two superfluous columns and the sample
+    `[i=3, x=1]` in another order both give 7 -/
+example :
+    let e : Expr := { vars := [0, 1], idx := [(0, 0), (1, 1)], qb := { lin := [1, 2], adj := [[], []], off := 0 } }
+    exprEnergyOfSample [.str "x", .str "i"] [.str "a", .str "x", .str "b", .str "i"] [9, 1, 7, 3] e = 7
+    ∧ exprEnergyOfSample [.str "x", .str "i"] [.str "i", .str "x"] [3, 1] e = 7
+    ∧ gatherMissing [.str "x", .str "i"] [.str "i"] e = true := by decide +kernel
+
+/-- row 1 of `demo` (`soft` x+y<=1 met, `hard` x−y>=0 violated by 1): nothing soft is violated, the one hard constraint is
+    listed by `skip_satisfied`, `check_feasible` is False at tolerance 0 and True at `atol = 1`; the float test with an exact
+    `fl` is the rational one; a 2-variable one-hot row satisfies its discrete constraint -/
+example : hardListed false demo 1 = [.str "hard"] ∧ hardListed true demo 0 = [] ∧ checkFeasible 0 0 demo 1 = false
+    ∧ checkFeasible 1 0 demo 1 = true ∧ (demo.map (satisfiedFl id 0 0 · 1)) = [true, false, true] := by decide +kernel
 
 end C08
